@@ -55,6 +55,12 @@ Theorem C04_loop_terminates : forall x y z d, 0 < x * x + y * y -> XKMPER * XKMP
 Proof. exact loop_exits_by_5. Qed.
 Print Assumptions C04_loop_terminates.
 
+Theorem C04_module_loop_terminates : forall x y z d, 0 < x * x + y * y -> XKMPER * XKMPER <= x * x + y * y + z * z ->
+  gen_geoloc_lla_exit_p1 x y z d \/ gen_geoloc_lla_exit_p2 x y z d \/ gen_geoloc_lla_exit_p3 x y z d \/
+  gen_geoloc_lla_exit_p4 x y z d \/ gen_geoloc_lla_exit_p5 x y z d.
+Proof. exact module_loop_exits_by_5. Qed.
+Print Assumptions C04_module_loop_terminates.
+
 (* total form of the round trip: an exit is taken and its result converts back to the position *)
 Theorem C04_roundtrip_total : forall x y z d, 0 < x * x + y * y -> XKMPER * XKMPER <= x * x + y * y + z * z ->
   (gen_lla_exit_p1 x y z d /\ roundtrip_ok x y z d (gen_lla_lat_p1 x y z d) (gen_lla_alt_p1 x y z d)) \/
